@@ -746,6 +746,15 @@ def run_deterministic(kind, seq, driver=None):
                         finally:
                             if len(rig.renders) == n_before:      # not rendered: only the first reading was consumed
                                 fake.queue = []
+                        if len(rig.renders) > n_before:
+                            # at EVERY rendering - also one triggered by the heartbeat alone - the elapsed times shown add up to the
+                            # time during which something was running, up to the moment of the rendering
+                            readings.append((Fraction(e[2]), 0))
+                            busy_now, _ = busy_from(readings)
+                            sumw_now = sum(x.weighted_elapsed for dd in rig.obs._state.section_scope_mapping.values() for x in dd.values())
+                            if not close(sumw_now, busy_now):
+                                return (f"{kind}: at the rendering of event {idx} {e} the elapsed times of the scopes add up to {sumw_now}, "
+                                        f"something had been running for {float(busy_now)}", None, {})
                     else:
                         fake.queue = [float(Fraction(e[1]))]
                         rig.notify(e[2], e[3], scopes[e[4]], e[5])
